@@ -29,6 +29,36 @@ def generate(ctx):
         lines = S.file_lines(case) + S.generic_ops(case)
         yield lines, dict(family=kind + ".plan", expect=digest(m["data"]), hdr=case["meta"].get("expect"), plan=S.short_meta(case),
                           nontrivial=len(m["data"]) > 0)
+    # directed: LZH streams cut as short as they can be (the decoder's end-of-input rule is applied
+    # right after the last operation): every final-bit alignment, last operation a match or a literal run
+    try:
+        from vgen import kwaj, lz
+        made = 0; tries = 0
+        want_n = 60 if ctx.tier == "quick" else 1500
+        while made < want_n and tries < want_n * 4:
+            tries += 1
+            nlit = rng.randint(1, 12)
+            toks = [("L", rng.choice(b"abcdefgh")) for _ in range(nlit)]
+            for _ in range(rng.randint(0, 3)):
+                toks.append(("M", rng.randint(1, nlit), rng.randint(3, 17)))
+                toks += [("L", rng.choice(b"xyz")) for _ in range(rng.randint(0, 2))]
+            if rng.random() < 0.7:
+                toks.append(("M", rng.randint(1, nlit), rng.randint(3, 17)))
+            want = lz.expand(toks, kwaj.RING)
+            try:
+                data, info = kwaj.lzh_encode(toks, rng)
+            except AssertionError:
+                continue
+            # shortest prefix that still decodes to the plan
+            while len(data) > 1 and kwaj.lzh_decode(data[:-1]) == want:
+                data = data[:-1]
+            f = kwaj.build(3, data)
+            made += 1
+            yield [f"file f.kwj {f.hex()}", "new kwaj", "open i0 f.kwj", "extract i0 h0 - out", "close i0 h0", "destroy i0"], \
+                  dict(family="kwaj.lzh-tight-tail", expect=digest(want), hdr=None, plan=dict(last="match" if toks[-1][0] == "M" else "literal", nbytes=len(data)),
+                       nontrivial=True)
+    except ImportError:
+        pass
     fx = sorted(glob.glob(os.path.join(C.REPO, "libmspack/test/test_files/kwajd/*.kwj")))
     for p in fx:
         yield [f"fileref f.kwj {p}", "new kwaj", "open i0 f.kwj", "extract i0 h0 - out", "close i0 h0", "destroy i0"], \
@@ -37,11 +67,11 @@ def generate(ctx):
 def judge(ctx, meta, impl, model):
     fs = []
     crash = [b[0] for b in impl if b[0].startswith(("CRASH", "TIMEOUT"))]
-    if crash and meta["family"].endswith(".plan"):
+    if crash and (meta["family"].endswith(".plan") or meta["family"] == "kwaj.lzh-tight-tail"):
         return [Finding("violation", "well-formed file: implementation " + crash[0])]
     op = next((b for b in impl if b[0].startswith("open")), None)
     ex = next((C.kv(b[0]) for b in impl if b[0].startswith("extract ")), None)
-    if meta["family"].endswith(".plan"):
+    if meta["family"].endswith(".plan") or meta["family"] == "kwaj.lzh-tight-tail":
         if op is None or " st=0" not in op[0]:
             fs.append(Finding("violation", f"well-formed {meta['family']} refused by open(): {op[0] if op else None}"))
         else:
